@@ -154,6 +154,20 @@ def run(chk):
                     if not (close(m.T, ref.T) and close(m.sigma, ref.sigma)):
                         chk.fail("i-vector extractor trained from a bag with %s partitions differs from the in-memory list (order seed %d, isolated=%s)" % (k, sd, iso),
                                  dict(ctx, npartitions=k, isolated=iso, order_seed=sd, update_sigma=upd, executed_order=sch.orders[-1] if sch.orders else []))
+        # partial E-step statistics accumulated with += (as one does when driving the public e_step / m_step over partitions by hand): every field is
+        # the sum over the partitions, and the M-step from it is that of the whole list
+        from bob.learn.em import ivector as _ivm
+        mh_ = iv.with_params(ubm, iv.t0_of(seed, C, D, t), np.asarray(ubm.variances), t)
+        mh_.update_sigma = True
+        halves = [stats[: len(stats) // 2], stats[len(stats) // 2:]]
+        acc_ = _ivm.e_step(mh_, halves[0])
+        acc_ += _ivm.e_step(mh_, halves[1])
+        whole_ = _ivm.e_step(mh_, stats)
+        chk.count(1, key=("ivector", "+= accumulation"))
+        badf = [k_ for k_ in ("nij_sigma_wij2", "fnorm_sigma_wij", "snormij", "nij") if hasattr(whole_, k_)
+                and not np.allclose(np.asarray(getattr(acc_, k_)), np.asarray(getattr(whole_, k_)), rtol=1e-10, atol=1e-12)]
+        if badf:
+            chk.fail("i-vector E-step statistics of two partitions accumulated with += differ from the E-step of the whole list in %s" % badf, dict(ctx, fields=badf))
         # statistics with very small fractional counts throughout (soft counts of heavily down-weighted data): bag = list
         if rd % 2 == 0:
             tiny = []
